@@ -69,7 +69,10 @@ def vT(items):
 
 
 TUPLES = [vT([]), vT([vI(1)]), vT([vI(1), vI(2)]), vT([vI(1), vF(fbits(2.0)), vS("a")]), vT([vT([vI(1)]), "E"]),
-          vT([vS("a"), vS("b")]), vT([vB(True), vB(False), vI(0)]), vT([vF(0x7ff8000000000000)])]
+          vT([vS("a"), vS("b")]), vT([vB(True), vB(False), vI(0)]), vT([vF(0x7ff8000000000000)]),
+          # pairs that differ in one aspect only: Int / Float of the same number, the sign of a zero, order, length, nesting
+          vT([vI(1), vF(fbits(2.0))]), vT([vI(2), vI(1)]), vT([vI(1), vI(2), "E"]), vT([vF(0)]), vT([vF(0x8000000000000000)]), vT([vI(0)]),
+          vT([vT([vF(fbits(1.0))]), "E"]), vT([vT([vI(1)]), vT([])]), vT([vI(1), vS("2")])]
 
 
 def pool():
